@@ -6,6 +6,7 @@ import "fmt"
 
 func init() {
 	vpRegister("VPH_C27_call", VPH_C27_call)
+	vpRegister("VPH_C27_history", VPH_C27_history)
 }
 
 type vpAddr struct{ s string }
@@ -26,6 +27,11 @@ var vpRemotes = []vpRemote{
 	{"10.0.0.9:999", "10.0.0.9", []byte{0, 0, 0, 0, 0, 0, 0, 0, 0, 0, 0xff, 0xff, 10, 0, 0, 9}, false},
 	{"[2001:db8::1]:999", "2001:db8::1", []byte{0x20, 0x01, 0x0d, 0xb8, 0, 0, 0, 0, 0, 0, 0, 0, 0, 0, 0, 1}, false},
 	{"[fe80::1%eth0]:999", "fe80::1%eth0", nil, false}, // zone-scoped link-local: net.ParseIP rejects the zone
+	// addresses whose text carries no port (a net.Addr that is not a TCP/UDP address, e.g. *net.IPAddr)
+	// or is an unbracketed IPv6 literal: none of them is a loopback address
+	{"203.0.113.7", "203.0.113.7", []byte{0, 0, 0, 0, 0, 0, 0, 0, 0, 0, 0xff, 0xff, 203, 0, 113, 7}, false},
+	{"2001:db8::7", "2001:db8::7", []byte{0x20, 0x01, 0x0d, 0xb8, 0, 0, 0, 0, 0, 0, 0, 0, 0, 0, 0, 7}, false},
+	{"", "", nil, false},
 }
 
 type vpMap struct{ prog, vers, prot, port uint32 }
@@ -241,5 +247,143 @@ func VPH_C27_call() {
 			want = append(want[:k:k], want[k+1:]...)
 		}
 		vpAssert(vpSameRegistry(pm, want), "set-unset-update-exactly-one-key")
+	}
+}
+
+// vpPmCall sends one portmap v2 / rpcbind v3-v4 call and returns the result bytes after the
+// accepted-reply header (nil when the reply is not an accepted SUCCESS).
+func vpPmCall(pm *Portmapper, remote string, version, proc, prog, vers, prot, port uint32) *vpRd {
+	var b vpBuf
+	b.u32(77).u32(RPC_CALL).u32(2).u32(PortmapperProgram).u32(version).u32(proc)
+	b.u32(AUTH_NONE).u32(0).u32(AUTH_NONE).u32(0)
+	if version == 2 {
+		b.u32(prog).u32(vers).u32(prot).u32(port)
+	} else {
+		netid := "udp"
+		if prot == IPPROTO_TCP {
+			netid = "tcp"
+		}
+		b.u32(prog).u32(vers).str(netid).str(fmt.Sprintf("0.0.0.0.%d.%d", port/256, port%256)).str("owner")
+	}
+	reply, err := pm.handleCall(b.Bytes(), vpAddr{remote})
+	if err != nil {
+		return nil
+	}
+	rd := &vpRd{b: reply}
+	if rd.u32() != 77 || rd.u32() != RPC_REPLY || rd.u32() != MSG_ACCEPTED {
+		return nil
+	}
+	rd.u32()
+	rd.u32()
+	if rd.u32() != SUCCESS {
+		return nil
+	}
+	return rd
+}
+
+// VPH_C27_history: k calls (SET, UNSET, GETPORT/GETADDR, DUMP; any protocol version; loopback or
+// routable caller) from the empty registry over two programs x two ports, in lockstep with a map
+// written from the statement. Every query answers from the current registrations - in particular
+// after a SET that only changes the port of a key already present - and only loopback callers
+// change the map.
+func VPH_C27_history() {
+	for _, r := range vpRemotes {
+		vpStubIP(r.host, r.ip)
+	}
+	pm := NewPortmapper()
+	pm.SetListenAddr("192.0.2.7")
+	k := 3
+	if vpTier() == 1 {
+		k = 4
+	}
+	progs := []uint32{100003, 100005}
+	ports := []uint32{2049, 635}
+	var model []vpMap
+	// one protocol version for the modifying calls and one for the queries of a history (so v3 SET
+	// followed by v2 DUMP is covered) rather than one per call: 9 x 12^k paths instead of 60^k
+	modVersion := []uint32{2, 3, 4}[vpChoose("modify-version", 0, 2)]
+	qryVersion := []uint32{2, 3, 4}[vpChoose("query-version", 0, 2)]
+	for step := 0; step < k; step++ {
+		prog := progs[vpChoose("prog", 0, 1)]
+		// 0 SET port A, 1 SET port B, 2 SET from a routable address, 3 UNSET, 4 GETPORT/GETADDR, 5 DUMP
+		sel := vpChoose("op", 0, 5)
+		op := []int{0, 0, 0, 1, 2, 3}[sel]
+		version := qryVersion
+		if op <= 1 {
+			version = modVersion
+		}
+		switch op {
+		case 0, 1: // SET / UNSET
+			local := sel != 2
+			remote := "10.0.0.9:999"
+			if local {
+				remote = "127.0.0.1:999"
+			}
+			port := ports[sel&1]
+			rd := vpPmCall(pm, remote, version, uint32(1+op), prog, 3, IPPROTO_TCP, port)
+			vpAssert(rd != nil, "history-modify-answered")
+			if rd == nil {
+				return
+			}
+			res := rd.u32()
+			i := vpFind(model, prog, 3, IPPROTO_TCP)
+			if !local {
+				vpAssert(res == 0, "history-non-loopback-modify-refused")
+			} else if op == 0 {
+				vpReach("history-set")
+				if i >= 0 {
+					vpReach("history-set-changes-port-of-existing-key")
+					model[i].port = port
+				} else {
+					model = append(model, vpMap{prog, 3, IPPROTO_TCP, port})
+				}
+			} else if i >= 0 {
+				vpReach("history-unset")
+				model = append(model[:i:i], model[i+1:]...)
+			}
+		case 2: // GETPORT / GETADDR
+			rd := vpPmCall(pm, "10.0.0.9:999", version, 3, prog, 3, IPPROTO_TCP, 0)
+			vpAssert(rd != nil, "history-lookup-answered")
+			if rd == nil {
+				return
+			}
+			i := vpFind(model, prog, 3, IPPROTO_TCP)
+			if version == 2 {
+				got := rd.u32()
+				want := uint32(0)
+				if i >= 0 {
+					want = model[i].port
+				}
+				vpAssert(got == want, "history-getport-reports-current-registration")
+			} else {
+				ua := string(rd.opaque())
+				want := ""
+				if i >= 0 {
+					want = fmt.Sprintf("192.0.2.7.%d.%d", model[i].port/256, model[i].port%256)
+				}
+				vpAssert(ua == want, "history-getaddr-reports-current-registration")
+			}
+		case 3: // DUMP
+			vpReach("history-dump")
+			rd := vpPmCall(pm, "10.0.0.9:999", version, 4, 0, 0, 0, 0)
+			vpAssert(rd != nil, "history-dump-answered")
+			if rd == nil {
+				return
+			}
+			for i := range model {
+				vpAssert(rd.u32() == 1, "history-dump-more")
+				vpAssert(vpAnd(rd.u32() == model[i].prog, rd.u32() == model[i].vers), "history-dump-key")
+				if version == 2 {
+					vpAssert(vpAnd(rd.u32() == model[i].prot, rd.u32() == model[i].port), "history-dump-reports-current-port")
+				} else {
+					rd.opaque()
+					ua := string(rd.opaque())
+					rd.opaque()
+					vpAssert(ua == fmt.Sprintf("192.0.2.7.%d.%d", model[i].port/256, model[i].port%256), "history-rpcb-dump-reports-current-port")
+				}
+			}
+			vpAssert(vpAnd(rd.u32() == 0, rd.done()), "history-dump-end")
+		}
+		vpAssert(vpSameRegistry(pm, model), "history-registry-equals-model")
 	}
 }
